@@ -4,6 +4,8 @@ package main
 // conflicts (C14), a rejected handshake line that is followed by more output (C10).
 
 import (
+	"crypto/rand"
+	"errors"
 	"fmt"
 	"os"
 	"os/exec"
@@ -134,6 +136,59 @@ func runLaunchConflict(kind string) (impl, pred string) {
 		return impl, "FAIL:conflicting-launch-methods-accepted"
 	case launched || atomic.LoadInt32(&rfCalls) != 0:
 		return impl, "FAIL:something-launched-despite-the-conflict"
+	}
+	return impl, "ok"
+}
+
+type failingEntropy struct{}
+
+func (failingEntropy) Read([]byte) (int, error) {
+	return 0, errors.New("gpv: entropy source unavailable")
+}
+
+// runAutoMTLSCertFault: AutoMTLS is on and the host cannot produce its certificate (the process-wide entropy source
+// fails for the duration of Start): Start reports an error and nothing is launched — in particular not a plugin WITHOUT
+// PLUGIN_CLIENT_CERT, which would serve without TLS.  (Swaps a process-wide variable: runs while nothing else does.)
+func runAutoMTLSCertFault() (impl, pred string) {
+	old := rand.Reader
+	rand.Reader = failingEntropy{}
+	restore := func() { rand.Reader = old }
+	defer restore()
+	var calls int32
+	withCert := false
+	client := plugin.NewClient(&plugin.ClientConfig{
+		HandshakeConfig:  kitHandshake(),
+		VersionedPlugins: kitHostSets(map[int]string{3: "grpc"}, nil, nil),
+		AllowedProtocols: []plugin.Protocol{plugin.ProtocolGRPC},
+		AutoMTLS:         true,
+		Logger:           nullLogger(),
+		StartTimeout:     2 * time.Second,
+		Cmd:              nil,
+		RunnerFunc: func(l hclog.Logger, cm *exec.Cmd, tmpDir string) (runner.Runner, error) {
+			atomic.AddInt32(&calls, 1)
+			for _, kv := range cm.Env {
+				if len(kv) > 19 && kv[:19] == "PLUGIN_CLIENT_CERT=" {
+					withCert = true
+				}
+			}
+			return nil, fmt.Errorf("not launching")
+		},
+	})
+	var serr error
+	_, hung, pp := withTimeout(8*time.Second, func() error { _, serr = client.Start(); return nil })
+	restore()
+	withTimeout(5*time.Second, func() error { client.Kill(); return nil })
+	n := atomic.LoadInt32(&calls)
+	impl = fmt.Sprintf("err=%s launches=%d withcert=%s", b01(serr != nil), n, b01(withCert))
+	switch {
+	case hung || pp != nil:
+		return impl, "FAIL:start-hung-or-panicked"
+	case n > 0 && !withCert:
+		return impl, "FAIL:automtls-plugin-launched-without-client-certificate"
+	case n > 0:
+		return "fault-not-injected " + impl, "ok" // this toolchain's certificate generation does not read the swapped source
+	case serr == nil:
+		return impl, "FAIL:start-succeeded-without-certificate"
 	}
 	return impl, "ok"
 }
